@@ -63,4 +63,24 @@ size_t strnlen(const char *s, size_t maxlen)
 }
 # endif
 #endif
+
+/* ---- work-around for a goto-instrument 6.11 crash (goto_inline_class.cpp:104 "Unreachable") ---------
+ * When a function with a loop contract (spiftool_safe_strncpy) is a CALLEE of the enforced function,
+ * DFCC's loop-assigns inference (dfcc_infer_loop_assigns_for_function) inlines the calls in its body; if
+ * one of the called functions has a body and happens to have been instrumented earlier (it then has more
+ * parameters than the call has arguments) goto-instrument aborts.  The order follows string numbering in
+ * the goto binary, i.e. it flips with unrelated edits (seen: safe_strncat proved, its twin unit crashed).
+ * The only calls inside safe_strncpy are the message/print calls of libast's ASSERT_RVAL/REQUIRE_RVAL/
+ * __DEBUG macros, all of which env.h stubs out as no-ops.  Units that define VERIF_STRHELP_NOCALL_MSGS get
+ * the SAME stubs as function-like macros (no call left to inline).  Include this file after vprelude.h and
+ * before "src/strings.c".  Stated deviation: binding of environment stubs only; libast text unchanged. */
+#ifdef VERIF_STRHELP_NOCALL_MSGS
+# define libast_dprintf(...)        (0)
+# define libast_print_error(...)    ((void) 0)
+# define libast_print_warning(...)  ((void) 0)
+# define libast_fatal_error(...)    __CPROVER_assume(0)
+# undef fprintf
+# define fprintf(...)               (0)
+# define time(t)                    ((time_t) 0)
+#endif
 #endif
